@@ -214,14 +214,28 @@ def analyse(unit, g, vr):
     return failures, undecided, clause_tab
 
 
+def default_props(fprops, section):
+    """Routing of an untagged clause: termination clauses and the implicit safety obligations belong to C01;
+    functional clauses (ensures / invariants) belong to the other properties of the header (to C01 only when it
+    is the only one)."""
+    others = [p for p in fprops if p != 'C01']
+    if section in ('decreases', 'safety'):
+        return ['C01'] if 'C01' in fprops else fprops
+    return others if others else fprops
+
+
 def route(rec, contracts):
     c = contracts.get(rec['fn'])
     fprops = c['props'] if c else []
     if rec.get('props_override'):
         return rec['props_override']
-    if rec['kind'] in SAFETY_KINDS and 'C01' in fprops:
-        return ['C01']
-    return fprops
+    if rec['kind'] in SAFETY_KINDS or rec['kind'] == 'decreases':
+        return default_props(fprops, 'safety')
+    if rec['kind'] == 'requires-at-call':
+        # an unproved precondition of a contracted callee: a lookahead / state discipline failure -> C01 and the
+        # functional properties alike
+        return fprops
+    return default_props(fprops, 'ensures')
 
 
 def count_obligations(pid, contracts, clause_tab):
@@ -236,14 +250,16 @@ def count_obligations(pid, contracts, clause_tab):
         if c['mode'] != 'verify':
             assumed.append('%s (%s)' % (lab, c['mode']))
             continue
+        def mine(cl):
+            return pid in (cl['props'] or default_props(c['props'], cl['section']))
         for cl in tabs['sig']:
-            if cl['section'] in ('ensures', 'decreases') and (not cl['props'] or pid in cl['props']):
+            if cl['section'] in ('ensures', 'decreases') and mine(cl):
                 k += 1
         for lk, cls in tabs['loops'].items():
             for cl in cls:
-                if cl['section'] in ('invariant', 'invariant_except_break') and (not cl['props'] or pid in cl['props']):
+                if cl['section'] in ('invariant', 'invariant_except_break', 'ensures') and mine(cl):
                     k += 2    # established on entry + preserved by the body
-                elif cl['section'] == 'decreases':
+                elif cl['section'] == 'decreases' and mine(cl):
                     k += 1
         # one bundled obligation for everything Verus generates by itself in the body: callee
         # preconditions, unwrap/expect, unreachable!, assert!, overflow, indexing
